@@ -471,12 +471,19 @@ def c19(res):
     import fam_market
     bw = workdir("C19big-%s" % res.tier)
     big = [dict(id="F4-bush-%d" % n_, family="chainbush", n=n_, init=[1], succ=[], inb=[], params=[k_], poison=0, rep=[], props=[])
-           for (n_, k_) in ([(4000, 1), (5200, 30)] if q else [(4000, 1), (5200, 30), (9000, 2), (12000, 300)])]
+           for (n_, k_) in [(4000, 1), (5200, 30)]]
     big += [g for g in fam_market.f4_graphs(rng, q) if g["family"] in ("tree", "grid")][: (2 if q else 4)]
     for g in big:
         g["props"] = fam_market.big_props(rng)
     fam_market.checker_runs(res, "C19", big, lambda i, g: [gg.base_cfg("ondemand", t, light=True, watchdog_ms=60000) for t in ((1, 2) if q else (1, 2, 4))],
                             ["joined", "edges", "subset", "once", "complete", "verdicts"], bw, "c19big")
+    if not q:
+        # wider frontiers without the recording visitor (it re-executes the model along every path: quadratic in the
+        # fan-out); the model counts the evaluations itself
+        wide = [dict(id="F4-widebush-%d" % n_, family="chainbush", n=n_, init=[1], succ=[], inb=[], params=[k_], poison=0, rep=[],
+                     props=fam_market.big_props(rng)) for (n_, k_) in [(20000, 1), (30000, 300)]]
+        fam_market.checker_runs(res, "C19", wide, lambda i, g: [gg.base_cfg("ondemand", t, no_visitor=True, watchdog_ms=60000) for t in (1, 2, 4)],
+                                ["joined", "evals_once"], bw, "c19wide")
     shutil.rmtree(bw, ignore_errors=True)
     res.traces += len(recs)
     res.evaluations += nq
